@@ -1,4 +1,4 @@
-"""C04 - extension tower (partial claim: tables and indices)."""
+"""C04 - extension tower: formulas by algebraic value numbering, tables, indices."""
 from .. import consts, formulas
 
 EXPL = ('(R-POLY) The formulas ARE decided, for all inputs at once, by algebraic value numbering: each routine of Fq2/Fq6/Fq12 '
@@ -7,8 +7,12 @@ EXPL = ('(R-POLY) The formulas ARE decided, for all inputs at once, by algebraic
         'polynomial ring F_q[inputs] (base-field operations = ring operations, whose exactness is C02\'s concern) and the normal '
         'form of every output coordinate is compared with the definitional arithmetic of Fq[u]/(u^2+1), Fq2[v]/(v^3-(u+1)), '
         'Fq6[w]/(w^2-v); inversions are checked as result*a == 1 given the relation of the single inner inversion; every '
-        'admitted aliasing pattern (out==a, out==b, out==a==b) is run as well. Not decided: the cyclotomic squaring and '
-        'map_to_cyclotomic (identities that hold only on a subgroup), Legendre/square-root/norm in Fq2, exponentiation, byte I/O. '
+        'admitted aliasing pattern (out==a, out==b, out==a==b) is run as well. (R-POLY/cyclotomic) the fast cyclotomic squaring equals a*a on the cyclotomic subgroup: its difference from a*a lies, '
+        'component by component, in the F_q-linear span of the relations a*conj(a)=1 and a^(q^4)*a=a^(q^2) that define that subgroup '
+        '(Gaussian elimination on coefficient vectors); (R-POLY/exp) map_to_cyclotomic raises to exactly (q^6-1)(q^2+1) and the generic '
+        'square-and-multiply exponentiation gives bit i of the exponent weight 2^i for every bit of the operand width (exponent-domain '
+        'value numbering: Fq12 values numbered by their exponent of one symbolic generator, multiply -> +, square -> *2, inverse -> *-1, '
+        'conjugate -> *q^6, frobenius(k) -> *q^k). Not decided: Legendre/square-root/norm in Fq2, byte I/O. '
         'Also decided: '
         '(R-CONST) every entry of the Fq2/Fq6/Fq12 Frobenius coefficient tables equals the coefficient the defining '
         'polynomials require ((-1)^((q^i-1)/2), xi^((q^i-1)/3), xi^((2q^i-2)/3), xi^((q^i-1)/6) with xi = u+1), '
@@ -20,9 +24,12 @@ EXPL = ('(R-POLY) The formulas ARE decided, for all inputs at once, by algebraic
 def run(ctx):
     ctx.explanation = EXPL
     ctx.level = 'other'
-    ctx.assumptions = ['x is the trusted root; tower formulas are not decided']
+    ctx.assumptions = ['x is the trusted root; base-field operations are treated as exact ring operations (C02/C03 are about that layer)']
     for cfg, prog in ctx.programs().items():
         n = consts.rule_tower_constants(ctx, cfg, prog)
         ctx.floor('tower constant relations[%s]' % cfg, n, 30)
         m = formulas.rule_tower(ctx, cfg, prog)
         ctx.floor('R-POLY tower formulas[%s]' % cfg, m, 100)
+        c = formulas.rule_cyclotomic(ctx, cfg, prog)
+        e = formulas.rule_exponents_gt(ctx, cfg, prog, which=('cyclo', 'generic'))
+        ctx.floor('R-POLY cyclotomic/exponent obligations[%s]' % cfg, c + e, 6)
